@@ -148,6 +148,7 @@ package cbreaker
 //@   ensures tripping_clears_metrics: calls(c.condition) == 1 && callres(c.condition, 0, 0) ==> calls(Reset) == 1 && c.until == lastclock + c.fallbackDuration
 //@   ensures no_trip_no_reset: calls(c.condition) == 0 || !callres(c.condition, 0, 0) ==> calls(Reset) == 0
 //@   ensures evaluated_once: calls(c.condition) <= 1
+//@   ensures {C18} next_check_a_full_period_from_now: calls(c.condition) == 1 ==> c.lastCheck == lastclock + c.checkPeriod
 
 //@ func (*CircuitBreaker).serve
 //@   props C05 C18 C20
